@@ -14,7 +14,17 @@ Judge(e) ==
     \* (B) level: the order written is one the model says the encoder may choose
     /\ IF e.wret = "ok" /\ e.po >= 0 /\ ~(\E c \in cands : Len(c) = 2^e.po) /\ cands # {}
        THEN PrintT(<<"DRIFT", l, "written partition order not among the model's candidates", e.bs, e.order, e.maxpo, e.po>>) ELSE TRUE
-Next == l <= Len(Rec) /\ l' = l + 1 /\ (IF Rec[l].ev = "res" THEN Judge(Rec[l]) ELSE TRUE)
+\* the reader alone over hand-made headers (escaped partitions of width 0): what it accepts must be a layout the format allows
+JudgeRaw(e) ==
+    LET rfc == RfcLayout(e.bs, e.po, e.order)
+        tooShort == e.bs % (2^e.po) = 0 /\ (e.bs \div (2^e.po)) < e.order      \* predictor order exceeds the partition length
+    IN /\ IF e.rret = "panic" THEN PrintT(<<"REJECT", l, l, "C05.residual-reader-no-panic", e.msg>>) ELSE TRUE
+       /\ IF tooShort /\ e.rret = "ok" THEN PrintT(<<"REJECT", l, l, "C05.predictor-order-exceeding-the-partition-is-refused", e.bs, e.order, e.po>>) ELSE TRUE
+       \* (that valid layouts ARE read is C03's business, decided on whole streams; an empty first partition may be refused)
+       /\ IF e.rret = "ok" /\ ~e.allzero THEN PrintT(<<"REJECT", l, l, "C05.accepted-layout-yields-the-coded-residuals", e.bs, e.order, e.po>>) ELSE TRUE
+       /\ IF (e.rret = "ok") # (DecLayout(e.bs, e.po, e.order) \notin {<<>>, <<-1>>})
+          THEN PrintT(<<"DRIFT", l, "the reader's verdict differs from DecLayout", e.bs, e.order, e.po, e.rret>>) ELSE TRUE
+Next == l <= Len(Rec) /\ l' = l + 1 /\ (IF Rec[l].ev = "res" THEN Judge(Rec[l]) ELSE IF Rec[l].ev = "rawres" THEN JudgeRaw(Rec[l]) ELSE TRUE)
 Spec == Init /\ [][Next]_l
 Post == IF TLCGet("stats").diameter - 1 = Len(Rec) THEN PrintT(<<"TRACE-DONE", Len(Rec)>>)
         ELSE PrintT(<<"TRACE-INCOMPLETE", TLCGet("stats").diameter, Len(Rec)>>)
